@@ -111,11 +111,19 @@ fn compile_in_cwd(it: &Item) -> Res {
         return Res::Panic("harness: chdir failed".into());
     }
     let fmt = Fmt { compressed: it.fmt.compressed, precision: it.fmt.precision };
+    // through the crate's public entry points, which is what an embedding program calls:
+    // compile_scss (root "-", FsContext::for_cwd), compile_scss_path (FsContext::for_path), or the
+    // pieces by hand - which of the three is a property of the item, so the reference uses the same
+    let which = it.digest() % 3;
     let r = catch_unwind(AssertUnwindSafe(|| {
-        let r = std::fs::File::open("input.scss")
-            .map_err(|e| rsass::Error::from(rsass::input::LoadError::Input("input.scss".into(), e)))
-            .and_then(|mut f| SourceFile::read(&mut f, SourceName::root("input.scss")).map_err(rsass::Error::from))
-            .and_then(|src| Context::for_loader(FsLoader::for_cwd()).with_format(fmt.format()).transform(src));
+        let r = match which {
+            0 => rsass::compile_scss(it.input.as_bytes(), fmt.format()),
+            1 => rsass::compile_scss_path(std::path::Path::new("input.scss"), fmt.format()),
+            _ => std::fs::File::open("input.scss")
+                .map_err(|e| rsass::Error::from(rsass::input::LoadError::Input("input.scss".into(), e)))
+                .and_then(|mut f| SourceFile::read(&mut f, SourceName::root("input.scss")).map_err(rsass::Error::from))
+                .and_then(|src| Context::for_loader(FsLoader::for_cwd()).with_format(fmt.format()).transform(src)),
+        };
         match r {
             Ok(b) => Res::Ok(String::from_utf8_lossy(&b).into_owned()),
             Err(e) => Res::Err { class: classify(&e), text: e.to_string() },
